@@ -183,7 +183,7 @@ def draw_dialect_spec(rng, tag):
 # A. histories
 # ----------------------------------------------------------------------------------------
 
-FIELD_KINDS = ["date", "int", "optint", "alias", "nt", "list", "inner", "plain", "bytes", "datetime", "gen"]
+FIELD_KINDS = ["date", "int", "optint", "alias", "nt", "list", "inner", "plain", "bytes", "datetime", "gen", "disc"]
 MIXIN_SLOTS = {
     "dict": [("dict", False), ("dict", True)],
     "orjson": [("dict", False), ("dict", True), ("jsonb", False), ("json", True)],
@@ -281,6 +281,15 @@ class Family:
         return self._G
 
     @property
+    def DB(self):
+        """plain base class of a discriminated field; its one variant (a plain dataclass with a date) is compiled on
+        the first deserialization — with or without a call dialect"""
+        if getattr(self, "_DB", None) is None:
+            self._DB = mk(f"DB_{self.uid}", (), {"__annotations__": {}})
+            self._DV = mk(f"DV_{self.uid}", (self._DB,), {"__annotations__": {"kind": str, "d": datetime.date}, "kind": "dv"}, kw_only=True)
+        return self._DB
+
+    @property
     def P(self):
         if self._P is None:
             self._P = mk(f"P_{self.uid}", (self.mixin,), {"__annotations__": {"d": datetime.date, "o": Optional[int]}, "o": None})
@@ -341,6 +350,12 @@ class Family:
                 ann[f] = self.P
             elif kind == "gen":
                 ann[f] = self.G[datetime.date]
+            elif kind == "disc":
+                import typing
+
+                from mashumaro.types import Discriminator
+
+                ann[f] = typing.Annotated[self.DB, Discriminator(field="kind", include_subtypes=True)]
         ns["__annotations__"] = ann
         if spec["parent"] is None:
             bases = (self.mixin,)
@@ -394,6 +409,9 @@ class Family:
                     kw[f] = self.P(d=datetime.date(2022, 3, 4), o=rng.choice([None, 1]))
                 elif kind == "gen":
                     kw[f] = self.G(x=datetime.date(2023, 4, 5))
+                elif kind == "disc":
+                    self.DB   # noqa: B018 - creates the variant too
+                    kw[f] = self._DV(d=datetime.date(2024, 5, 6))
             j = spec["parent"]
         return self.cls[i](**kw)
 
